@@ -1,6 +1,7 @@
 package simrt
 
 import (
+	stdsync "sync"
 	"sync/atomic"
 	"unsafe"
 )
@@ -12,8 +13,17 @@ import (
 // senders and receivers is a tape decision and a deadlock is detected instead of
 // hanging. Otherwise the helpers perform the real channel operation.
 //
-// Limits (stated): channels fed by the standard library (timers, contexts) are
-// not simulated; select is simulated (see the end of this file).
+// The simulator owns the channels the library makes (simprep wraps every
+// `make(chan …)` of the library in RegChan) and those of simulated timers. Any
+// other channel - in practice the Done channel of a context - is operated with the
+// real, non-blocking channel operations, and a task that finds it not ready parks
+// with a look that every scheduling point of every task repeats for it (pollWait):
+// such a channel changes only through what the simulated tasks themselves do (a
+// cancel function, a simulated timer), so this stays a function of the tape. select is simulated (see the end of this file).
+//
+// Limits (stated): a channel that goroutines outside the simulation feed (os/signal,
+// a real network) would make a run irreproducible; the library has none, and the
+// determinism self-test would show one.
 
 const maxChans = 128
 const chanQueueCap = 256
@@ -37,6 +47,45 @@ type chanState struct {
 // (a run may create thousands of channels: one per call of a function that uses one).
 var chans = make([]*chanState, maxChans)
 var nchans int
+
+// channels made outside a run (package-level variables) stay the simulator's in every run
+var permChans []unsafe.Pointer
+var permMu stdsync.Mutex
+
+// RegChan makes the channel one the simulator owns.
+func RegChan[C any](ch C) C {
+	id := chanID(ch)
+	if id == nil {
+		return ch
+	}
+	if !Running() {
+		permMu.Lock()
+		if len(permChans) < 4096 {
+			permChans = append(permChans, id)
+		}
+		permMu.Unlock()
+		return ch
+	}
+	if !quietNow() {
+		chanLookup(id)
+	}
+	return ch
+}
+
+//go:norace
+func chanOwned(id unsafe.Pointer) bool {
+	for i := nchans - 1; i >= 0; i-- {
+		if chans[i].id == id {
+			return true
+		}
+	}
+	for _, p := range permChans {
+		if p == id {
+			return true
+		}
+	}
+	return false
+}
 
 //go:norace
 func resetChans() {
@@ -236,7 +285,34 @@ func ChanSend[C ~chan T | ~chan<- T, T any](ch C, v T) {
 		ch <- v
 		return
 	}
+	if !chanOwned(chanID(ch)) && chanID(ch) != nil {
+		Yield(YChanSend, 0)
+		foreignSend[C, T](ch, v)
+		return
+	}
 	simSend(chanID(ch), cap(ch), v)
+}
+
+func foreignSend[C ~chan T | ~chan<- T, T any](ch C, v T) {
+	for {
+		select {
+		case ch <- v:
+			return
+		default:
+		}
+		pollWait(SelCase{id: chanID(ch), send: true})
+	}
+}
+
+func foreignRecv[C ~chan T | ~<-chan T, T any](ch C) (T, bool) {
+	for {
+		select {
+		case v, ok := <-ch:
+			return v, ok
+		default:
+		}
+		pollWait(SelCase{id: chanID(ch)})
+	}
 }
 
 // ChanRecv is `<-ch`.
@@ -251,6 +327,10 @@ func ChanRecv2[C ~chan T | ~<-chan T, T any](ch C) (T, bool) {
 		v, ok := <-ch
 		return v, ok
 	}
+	if !chanOwned(chanID(ch)) && chanID(ch) != nil {
+		Yield(YChanRecv, 0)
+		return foreignRecv[C, T](ch)
+	}
 	x, ok := simRecv(chanID(ch))
 	var z T
 	if !ok || x == nil {
@@ -262,6 +342,11 @@ func ChanRecv2[C ~chan T | ~<-chan T, T any](ch C) (T, bool) {
 // ChanClose is `close(ch)`.
 func ChanClose[C ~chan T | ~chan<- T, T any](ch C) {
 	if !simulated() {
+		close(ch)
+		return
+	}
+	if !chanOwned(chanID(ch)) && chanID(ch) != nil {
+		Yield(YChanSend, 0)
 		close(ch)
 		return
 	}
@@ -300,6 +385,27 @@ func SendCase[C ~chan T | ~chan<- T, T any](ch C) SelCase {
 	return SelCase{id: chanID(ch), cap: cap(ch), send: true}
 }
 
+// caseReady: would the clause proceed? For a channel the simulator does not own the
+// answer is read off the channel itself (peek.go); only tasks of the simulation
+// operate it, one at a time, so looking disturbs nothing: a buffered value stays
+// until the task takes it, and a receive from a closed, empty channel consumes
+// nothing. (A send on such a channel proceeds only if it is buffered and not full:
+// no task ever blocks in a real receive.)
+//
+//go:norace
+func caseReady(c *SelCase) bool {
+	if c.id == nil {
+		return false
+	}
+	if chanOwned(c.id) {
+		return selReady(*c)
+	}
+	if c.send {
+		return peekClosed(c.id) || peekLen(c.id) < peekCap(c.id)
+	}
+	return peekLen(c.id) > 0 || peekClosed(c.id)
+}
+
 //go:norace
 func selReady(c SelCase) bool {
 	if c.id == nil {
@@ -335,19 +441,38 @@ func SelectReady(hasDefault bool, cases ...SelCase) int {
 	}
 	Yield(YChanRecv, 0)
 	registered := false
+	var foreign [16]bool
+	anyForeign := false
+	for i, c := range cases {
+		if i < len(foreign) && c.id != nil && !chanOwned(c.id) {
+			foreign[i], anyForeign = true, true
+		}
+	}
 	for {
 		var ready [16]int
 		n := 0
 		for i, c := range cases {
-			if n < len(ready) && selReady(c) {
+			if n >= len(ready) || i >= len(foreign) {
+				break
+			}
+			if foreign[i] {
+				if caseReady(&cases[i]) {
+					ready[n] = i
+					n++
+				}
+				continue
+			}
+			if selReady(c) {
 				ready[n] = i
 				n++
 			}
 		}
 		if n > 0 || hasDefault {
 			if registered {
-				for _, c := range cases {
-					selAdjWait(c, -1)
+				for i, c := range cases {
+					if i < len(foreign) && !foreign[i] {
+						selAdjWait(c, -1)
+					}
 				}
 			}
 			if n > 0 {
@@ -362,10 +487,17 @@ func SelectReady(hasDefault bool, cases ...SelCase) int {
 		// each other in turn would never end - met with benign patch ben9_3).
 		if !registered {
 			registered = true
-			for _, c := range cases {
-				selAdjWait(c, +1)
+			for i, c := range cases {
+				if i < len(foreign) && !foreign[i] {
+					selAdjWait(c, +1)
+				}
 			}
 			Unblock(&selKey)
+		}
+		if anyForeign {
+			// a channel that is not the simulator's announces nothing: wait with a look
+			pollWait(cases...)
+			continue
 		}
 		Block(&selKey)
 	}
@@ -378,6 +510,9 @@ func ChanRecvNow[C ~chan T | ~<-chan T, T any](ch C) T {
 }
 
 func ChanRecv2Now[C ~chan T | ~<-chan T, T any](ch C) (T, bool) {
+	if !chanOwned(chanID(ch)) && chanID(ch) != nil {
+		return foreignRecv[C, T](ch)
+	}
 	x, ok := simRecvNow(chanID(ch))
 	var z T
 	if !ok || x == nil {
@@ -387,5 +522,9 @@ func ChanRecv2Now[C ~chan T | ~<-chan T, T any](ch C) (T, bool) {
 }
 
 func ChanSendNow[C ~chan T | ~chan<- T, T any](ch C, v T) {
+	if !chanOwned(chanID(ch)) && chanID(ch) != nil {
+		foreignSend[C, T](ch, v)
+		return
+	}
 	simSendNow(chanID(ch), cap(ch), v)
 }
